@@ -1,6 +1,13 @@
 (* Helpers for evaluating harness cases on the publisher-side models (the harness builds the same inputs). *)
-Require Import V.Base.MachineInt V.Generated.GenConsts V.Model.Descriptor V.Model.LogBase V.Model.LogDelta V.Model.Appender
-               V.Model.ExclAppender V.Model.Publication V.Model.ExclPublication.
+Require Import V.Base.MachineInt.
+Require Import V.Generated.GenConsts.
+Require Import V.Model.Descriptor.
+Require Import V.Model.LogBase.
+Require Import V.Model.LogDelta.
+Require Import V.Model.Appender.
+Require Import V.Model.ExclAppender.
+Require Import V.Model.Publication.
+Require Import V.Model.ExclPublication.
 Open Scope Z_scope.
 
 (* message cut into consecutive buffers of the given lengths *)
